@@ -12,6 +12,7 @@ mod gen;
 mod names;
 mod pair;
 mod script;
+mod sigkill;
 
 use std::collections::BTreeMap;
 use std::io::Write;
@@ -366,6 +367,8 @@ fn main() {
         "pair" => pair::cmd(&args),
         "names" => names::cmd(&args),
         "frames" => frames::cmd(&args),
+        "sigkill" => sigkill::cmd(&args),
+        "killchild" => sigkill::child(&args),
         _ => {
             eprintln!("usage: mrl-harness run|gen|damage|fault|pair|names|frames [--opt value]...");
             std::process::exit(2);
